@@ -184,6 +184,22 @@ def stress_mode_switch(ctx, x, y):
     return ctx.select(x < y, x + y, x - y)
 
 
+def stress_user_modifier(ctx, x):
+    # for the "user" pipeline (a user-written rewrite modifier applied top-down after the graph has been printed
+    # once): a named sub-expression and a parent of it are both rewritten
+    s = ctx.log1p(x)
+    r = ctx.log1p(s * s)
+    return ctx(r + s)
+
+
+def user_modifier(expr):
+    """A rewrite modifier as a user would write one: log1p(u) -> log(1 + u)."""
+    if expr.kind == "log1p":
+        (u,) = expr.operands
+        return expr.context.log(1 + u)
+    return expr
+
+
 def stress_shadow(ctx, x):
     # local names chosen to collide with names that library algorithms use internally
     one = ctx.constant(1, x)
@@ -235,7 +251,11 @@ for _t in TARGETS:
         STRESS_EXPLICIT.append(dict(target=_t, func="stress_mode_switch",
                                     sig=[{"python": ":float", "stablehlo": ":float", "xla_client": ":float"}.get(_t, ":float64")] * 2,
                                     params={"mode": _mode}))
-STRESS_FUNCS_EXPLICIT = {"stress_mode_switch": stress_mode_switch, "stress_list_args": stress_list_args, "stress_literal_infinities": stress_literal_infinities}
+for _t in ("python", "numpy", "cpp", "stablehlo", "xla_client"):
+    STRESS_EXPLICIT.append(dict(target=_t, func="stress_user_modifier",
+                                sig=[{"python": ":float", "stablehlo": ":float", "xla_client": ":float"}.get(_t, ":float64")],
+                                params={"__pipeline__": "user"}))
+STRESS_FUNCS_EXPLICIT = {"stress_mode_switch": stress_mode_switch, "stress_user_modifier": stress_user_modifier, "stress_list_args": stress_list_args, "stress_literal_infinities": stress_literal_infinities}
 
 STRESS_SIGS = {
     "python": {"float": [":float"], "complex": [":complex"]},
